@@ -20,6 +20,7 @@ type baseObj struct {
 	// the heap, so a spec application is independent of them only if no pointer type reachable from the types of its
 	// arguments can point into an object of this type (typeReaches).
 	escaped bool
+	backing bool // the object is the backing store of a slice (its cells are elements of type typ)
 }
 
 type heapBase struct {
